@@ -172,8 +172,12 @@ func (e *Engine) c9Added(key uint64, added bool, nvict int) {
 		if !d.captured {
 			e.abort = "admission decision without captured accounting"
 		}
-		if used > max && !d.lowering {
-			e.violate("C03", "over-capacity", fmt.Sprintf("admitting %#x (cost %d) left used=%d above MaxCost=%d", key, d.cost, used, max), 0)
+		if (used > max || d.postOver || d.postTrue > max) && !d.lowering {
+			tot := fmt.Sprint(d.postTrue)
+			if d.postOver {
+				tot = "more than MaxInt64"
+			}
+			e.violate("C03", "over-capacity", fmt.Sprintf("admitting %#x (cost %d) left the accounted costs at %s (the cache's counter reads %d), above MaxCost=%d", key, d.cost, tot, used, max), 0)
 		}
 		if used != sum {
 			e.violate("C03", "used-sum", fmt.Sprintf("used=%d differs from the sum of accounted costs %d", used, sum), 0)
